@@ -108,7 +108,7 @@ fn lattice(ctx: &mut Ctx, max_total: usize) {
             ctx.sample(|| json!({"N": total, "n": "0..=7", "kinds": ["gene", "omim", "orpha"]}));
         }
     }
-    ctx.space("setters/u16-border", "N in {65534, 65535} accepted with n in {1, N/2, N-1, N}; N = 65536 documented error");
+    ctx.space("setters/u16-border", "N in {65534, 65535} accepted with n in {1, N/2, N-1, N}; N in {65536, 65537, 70000, 90000, 100000, 2^24, usize::MAX/2} through the setters and 65536 / 70000 genes through the Builder: refused (documented) or exactly -ln(n/N)");
     for (total, n) in [(65534usize, 1usize), (65534, 32767), (65534, 65533), (65534, 65534), (65535, 1), (65535, 32768), (65535, 65534), (65535, 65535)] {
         if !ctx.take() {
             continue;
@@ -129,6 +129,87 @@ fn lattice(ctx: &mut Ctx, max_total: usize) {
             other => ctx.violation("InformationContent::set_*", "wrong value at the u16 border", json!({"N": total, "n": n, "observed": format!("{other:?}"), "expected": want})),
         }
         ctx.sample(|| json!({"N": total, "n": n}));
+    }
+    // beyond the documented limit a setter may refuse (that is what the crate documents); a value it does
+    // hand out must still be -ln(n/N)
+    for (total, n) in [(65536usize, 1usize), (65536, 32768), (65536, 65535), (65536, 65536), (65537, 2), (70000, 69990), (90000, 30000), (100_000, 1), (1 << 24, 1 << 23), (usize::MAX / 2, 3)] {
+        if !ctx.take() {
+            continue;
+        }
+        ctx.state();
+        ctx.exec();
+        ctx.validated();
+        ctx.nontrivial();
+        ctx.transitions(3);
+        let got = guard(|| {
+            let mut out = vec![];
+            let mut ic = InformationContent::default();
+            out.push(ic.set_gene(total, n).map(|_| ic.gene()).map_err(|e| e.to_string()));
+            out.push(ic.set_omim_disease(total, n).map(|_| ic.omim_disease()).map_err(|e| e.to_string()));
+            out.push(ic.set_orpha_disease(total, n).map(|_| ic.orpha_disease()).map_err(|e| e.to_string()));
+            out
+        });
+        let want = -((n as f64) / (total as f64)).ln();
+        match got {
+            Ok(rs) => {
+                for r in rs {
+                    if let Ok(v) = r {
+                        if !(v.is_finite() && v >= 0.0 && ((v as f64) - want).abs() <= 1e-6 + 1e-5 * want) {
+                            ctx.violation("InformationContent::set_*", "hands out a value that is not -ln(n/N) beyond the u16 border (refusing would be fine)", json!({"N": total, "n": n, "observed": v, "expected": want}));
+                            break;
+                        }
+                    }
+                }
+            }
+            Err(p) => ctx.violation("InformationContent::set_*", "panics beyond the u16 border", json!({"N": total, "n": n, "observed": p})),
+        }
+        ctx.sample(|| json!({"N": total, "n": n, "beyond_documented_limit": true}));
+    }
+    // the same through the Builder: 65 536 and 70 000 genes, all but ten of them on the lower of two terms
+    for total in [65_536u32, 70_000] {
+        if !ctx.take() {
+            continue;
+        }
+        ctx.state();
+        ctx.exec();
+        ctx.validated();
+        ctx.nontrivial();
+        ctx.transitions(total as u64 + 4);
+        let res = guard(|| -> Result<Option<[f32; 2]>, String> {
+            use hpo::builder::Builder;
+            let mut b = Builder::new();
+            b.new_term("All", 1u32);
+            b.new_term("Lower", 2u32);
+            let mut b = b.terms_complete();
+            b.add_parent(1u32, 2u32).map_err(|e| e.to_string())?;
+            let mut b = b.connect_all_terms();
+            for g in 0..total {
+                let t: u32 = if g < 10 { 1 } else { 2 };
+                b.annotate_gene(g.into(), &format!("G{g}"), t.into()).map_err(|e| e.to_string())?;
+            }
+            match b.calculate_information_content() {
+                Err(_) => Ok(None),
+                Ok(b) => {
+                    let ont = b.build_minimal();
+                    Ok(Some([ont.hpo(1u32).unwrap().information_content().gene(), ont.hpo(2u32).unwrap().information_content().gene()]))
+                }
+            }
+        });
+        let want = [0.0f64, -(((total - 10) as f64) / total as f64).ln()];
+        match res {
+            Ok(Ok(None)) => {}
+            Ok(Ok(Some(v))) => {
+                for k in 0..2 {
+                    if !(v[k].is_finite() && v[k] >= 0.0 && ((v[k] as f64) - want[k]).abs() <= 1e-6 + 1e-5 * want[k]) {
+                        ctx.violation("Builder::calculate_information_content", "hands out an ontology whose information content is not -ln(n/N) beyond the u16 border (refusing would be fine)", json!({"genes": total, "genes_on_lower_term": total - 10, "observed": v, "expected": want}));
+                        break;
+                    }
+                }
+            }
+            Ok(Err(e)) => ctx.violation("Builder", "construction fails on valid facts", json!({"genes": total, "observed": e})),
+            Err(p) => ctx.violation("Builder::calculate_information_content", "panics beyond the u16 border", json!({"genes": total, "observed": p})),
+        }
+        ctx.sample(|| json!({"genes": total, "beyond_documented_limit": true}));
     }
 }
 
